@@ -250,6 +250,7 @@ func (w *World) applyPin(s Step) *Violation {
 		return w.viol("C04", "C04.step", "error-on-legal-request", "pin", fmt.Sprintf("Export(%d): %v", s.N, err))
 	}
 	w.Pins[s.N] = e
+	w.FreeHelpers = true
 	w.P.Inc("pin.opened")
 	return nil
 }
